@@ -100,6 +100,15 @@ func newReadWriteSegment(basePath string, baseOffset int64, segmentSize uint32, 
 		ms.currentFileOffset, ms.c.baseOffset, commitOffset); err != nil {
 		return nil, errors.Wrapf(err, "failed to rebuild index for segment file %s", ms.c.txnPath)
 	}
+
+	// Anything after the last valid record is leftover data that recovery has discarded (e.g. a torn
+	// write followed by records that did reach the disk). Clear it, otherwise those records would be
+	// picked up again as valid entries once new records are appended in front of them.
+	for i := ms.currentFileOffset; i < segmentSize; i++ {
+		if ms.txnMappedFile[i] != 0 {
+			ms.txnMappedFile[i] = 0
+		}
+	}
 	return ms, nil
 }
 
